@@ -25,7 +25,6 @@ import (
 	ssi "github.com/nuts-foundation/go-did"
 	"github.com/nuts-foundation/go-did/did"
 	"github.com/nuts-foundation/nuts-node/crypto/hash"
-	"reflect"
 	"strings"
 	"time"
 )
@@ -102,14 +101,12 @@ func (r DIDKeyResolver) baseUrl(doc *did.Document) (baseUrl *string) {
 	context := doc.Context
 	for i := range context {
 		ctx := context[i]
-		if reflect.ValueOf(ctx).Kind() == reflect.Map {
-			m := ctx.(map[string]interface{})
-			if val, ok := m["@base"]; ok {
-				valStr := val.(string)
+		if m, isMap := ctx.(map[string]interface{}); isMap {
+			// the document is controlled by another party: @base could be anything
+			if valStr, ok := m["@base"].(string); ok {
 				baseUrl = &valStr
 				break
 			}
-
 		}
 	}
 	return baseUrl
